@@ -10,6 +10,7 @@ import (
 	"fmt"
 	"os"
 	"time"
+	"unsafe"
 
 	"github.com/cloudwego/shmipc-go/simrt"
 	"github.com/cloudwego/shmipc-go/simrt/simnet"
@@ -37,6 +38,32 @@ func installGlobals(s *simrt.Sim) {
 				bufferManagers, defaultDispatcher, dispatcherInitOnce, globalSM = g.bms, g.disp, g.once, g.sm
 			}
 		}
+	}
+	// discriminator of finding F-ABA: an ABA event (CAS succeeded although the word was rewritten since this goroutine
+	// loaded the expected value) on the head of a free list of any buffer manager of any simulated process
+	s.OnABA = func(addr uintptr) string {
+		has := func(g *globalBufferManager) bool {
+			if g == nil {
+				return false
+			}
+			for _, bm := range g.bms {
+				for _, l := range bm.lists {
+					if simrt.Norm(unsafe.Pointer(l.head)) == addr {
+						return true
+					}
+				}
+			}
+			return false
+		}
+		if has(bufferManagers) {
+			return "bufferList.head"
+		}
+		for _, p := range s.Procs() {
+			if g, ok := p.Data.(*procGlobals); ok && has(g.bms) {
+				return "bufferList.head"
+			}
+		}
+		return ""
 	}
 	simrt.PtrKey = func(k interface{}) (int64, bool) {
 		switch v := k.(type) {
